@@ -281,9 +281,9 @@ func (sh *shrinker) run(s *subject) *subject {
 				i++
 			}
 		}
-		if cur.Recurse && len(cur.Prog.Files) == 1 {
+		if cur.Recurse {
 			c := cur.clone()
-			c.Recurse = false
+			c.Recurse = false // without -r a program is generated file by file (rawUnit.mains)
 			accept(c)
 		}
 		// ---- files
